@@ -30,7 +30,7 @@ ASSUMPTIONS = ['bind() is called at step boundaries and as the first statement o
                'after a call of execute_once that raised (non-determinism, a planned failure of an action that had already called send) '
                'the interpreter is used further; for it only the delivery rules are judged, not the consumption of its own internal events',
                'generated charts per DESIGN §2']
-REQUIRED_COUNTERS = ['bind_from_action_code', 'action_raised_after_sending', 'steps_returned_after_an_earlier_raise', 'bound_method_targets_without_other_reference', 'threaded_schedules', 'threaded_deliveries_checked', 'sender_steps_checked', 'deliveries_checked', 'steps_with_2plus_bindings_and_2plus_sends', 'detach_inside_callback',
+REQUIRED_COUNTERS = ['listener_object_attached_twice', 'bind_from_action_code', 'action_raised_after_sending', 'steps_returned_after_an_earlier_raise', 'bound_method_targets_without_other_reference', 'threaded_schedules', 'threaded_deliveries_checked', 'sender_steps_checked', 'deliveries_checked', 'steps_with_2plus_bindings_and_2plus_sends', 'detach_inside_callback',
                      'self_detach_inside_callback', 'detach_at_boundary', 'delayed_events_delivered', 'notify_not_forwarded',
                      'own_internal_consumptions', 'cyclic_topologies', 'same_target_bound_twice', 'sends_while_becoming_final']
 TIERS = dict(quick=dict(ticks=70, gen=dict(max_states=9, max_depth=3, max_trans=10)),
@@ -136,7 +136,7 @@ def run_case(acc, rnd, tier, case):
                 if ent is not None:
                     snd.it.detach(h[2])
                     snd.bindings.remove(ent)
-                    dlog.append(('DETACH', id(h[2])))
+                    dlog.append(('DETACH', id(h[2]), snd.i))
                     stats['inside'] += 1
                     acc.count('detach_inside_callback')
                     if ent[1] == tid:
@@ -188,6 +188,15 @@ def run_case(acc, rnd, tier, case):
     targets = [('interp', i) for i in range(n)] + list(callables)
 
     def do_bind(snd, tid):
+        others = [(s2, b) for s2 in nodes if s2 is not snd for b in s2.bindings if all(b[0] is not x[0] for x in snd.bindings)]
+        if others and rnd.random() < 0.1:
+            # the very listener object another bind() returned is attached (documented low-level attach) to this sender as well:
+            # two attachments of one object; detaching one of them is no business of the other
+            s2, b = rnd.choice(others)
+            snd.it.attach(b[0])
+            snd.bindings.append([b[0], b[1]])
+            acc.count('listener_object_attached_twice')
+            return b[0]
         if tid[0] == 'interp':
             h = snd.it.bind(nodes[tid[1]].it)
         elif callables[tid] == 'relay':
@@ -306,6 +315,11 @@ def step_and_check(acc, rnd, nd, nodes, dlog, history, wit):
     if metas:
         acc.count('notify_not_forwarded', len(metas))
     for e in sent:
+        if e.data.get('z') == 1 and e.data.get('delay', None) != 0:
+            acc.violation('C15:parameters-lost', 'interpreter %d: the code sent %r with delay=0 explicitly; the event listed and '
+                          'delivered carries %r' % (nd.i, e.name, dict(e.data)), wit)
+            return False
+    for e in sent:
         nd.sent[e.data['u']] = (e.name, step.time + e.data.get('delay', 0))
     if sent and nd.it.final and not was_final:
         acc.count('sends_while_becoming_final')
@@ -334,7 +348,8 @@ def step_and_check(acc, rnd, nd, nodes, dlog, history, wit):
         nonlocal gi
         while gi < len(got) and got[gi][0] in ('DETACH', 'BIND'):
             if got[gi][0] == 'DETACH':
-                detached.add(got[gi][1])
+                if got[gi][2] == nd.i:          # (the same listener object may be attached to another sender: not our business)
+                    detached.add(got[gi][1])
             else:
                 active.append([got[gi][1], got[gi][2], True])
             gi += 1
